@@ -55,6 +55,17 @@ func c11Graphs() []c11Graph {
 			gs[i].files = deep
 		}
 	}
+	// output nested deeper than any fixed bound: by markup (150 and 400 nested elements in one file) and by a chain of components each of
+	// which wraps the next include in a list (70 files, two element levels each - well inside the include limit)
+	for _, n := range []int{120, 150, 400} {
+		gs = append(gs, c11Graph{fmt.Sprintf("deep-markup-%d", n), map[string]string{"p.vuego": strings.Repeat("<div>", n) + "<b>leaf {{ items }}</b>" + strings.Repeat("</div>", n)}, false})
+	}
+	nested := map[string]string{"p.vuego": inc("f0.vuego")}
+	for i := 0; i < 70; i++ {
+		nested[fmt.Sprintf("f%d.vuego", i)] = fmt.Sprintf("<ul><li><i>%d</i>", i) + inc(fmt.Sprintf("f%d.vuego", i+1)) + "</li></ul>"
+	}
+	nested["f70.vuego"] = "<b>end</b>"
+	gs = append(gs, c11Graph{"deep-chain-nested-70", nested, false})
 	// slots a page hands to its layout (`<template #name>` in the page, `<slot name>` in the layout or in a component the layout includes):
 	// every way of using such a slot (once, twice in a row, twice apart, three times, per loop iteration, through a component) x every
 	// shape of content (one node, two nodes, text, content that itself contains the slot, two slots that contain each other)
